@@ -61,7 +61,10 @@ def run(repo, rep):
             cur = set(state)
             if getattr(st, '_loop_target', False):
                 # a new iteration: elements of the iterated container are new sub-values
-                cur = {x for x in cur if not x[1].startswith('elem(')}
+                # (also anything computed from the loop variables: they are rebound)
+                bound = {n_.id for n_ in ast.walk(st) if isinstance(n_, ast.Name) and isinstance(n_.ctx, ast.Store)}
+                cur = {x for x in cur if not x[1].startswith('elem(') and
+                       not ({n_.id for n_ in ast.walk(ast.parse(x[0], mode='eval')) if isinstance(n_, ast.Name)} & bound)}
                 return [frozenset(cur)]
             calls = [c for c in _walk_no_nested(st) if id(c) in _site_of]
             calls.sort(key=lambda c: (c.lineno, c.col_offset))
